@@ -134,12 +134,23 @@ def check_particle_dispatch(ctx):
         if tag == '*' or not h:
             continue
         rets = [s for s in ifn.body if isinstance(s, ast.Return)]
+        local_defs = {}
+        if not rets:
+            # the branch only chooses the content; the container is built by the one return that follows the dispatch
+            rets = [s for s in conv.node.body if isinstance(s, ast.Return) and isinstance(s.value, ast.Call)]
+            for s_ in ifn.body:
+                if isinstance(s_, ast.Assign) and len(s_.targets) == 1 and isinstance(s_.targets[0], ast.Name):
+                    local_defs[s_.targets[0].id] = unparse(s_.value)
         ok = False
         detail = ''
         if rets and isinstance(rets[0].value, ast.Call):
             call = rets[0].value
             kws = {k.arg: unparse(k.value) for k in call.keywords}
-            content = kws.get('content', unparse(call.args[0]) if call.args else '')
+            params_ = ['content', 'min_occurrences', 'max_occurrences']
+            for i_, a_ in enumerate(call.args[:3]):
+                kws.setdefault(params_[i_], unparse(a_))        # positional form (keywords are made positional by the normalisation)
+            content = kws.get('content', '')
+            content = local_defs.get(content, content)
             # the occurrence arguments are plain local variables (whatever they are called); which ones is checked below
             occ_vars.setdefault('min', set()).add(kws.get('min_occurrences'))
             occ_vars.setdefault('max', set()).add(kws.get('max_occurrences'))
@@ -189,8 +200,11 @@ def check_particle_dispatch(ctx):
     init = sm.func('XMLChildContainer', '__init__', T.M_CONTAINER)
     got = {}
     for s in init.node.body:
-        if isinstance(s, ast.Assign) and len(s.targets) == 1:
-            got[unparse(s.targets[0])] = s.value
+        for x in ast.walk(s):
+            if isinstance(x, ast.Assign) and len(x.targets) == 1 and isinstance(x.targets[0], ast.Attribute):
+                got.setdefault(unparse(x.targets[0]), [])
+                if s not in got[unparse(x.targets[0])]:
+                    got[unparse(x.targets[0])].append(s)
     _check_occ_default(res, init, got.get('self.min_occurrences'), 'min_occurrences', False)
     _check_occ_default(res, init, got.get('self.max_occurrences'), 'max_occurrences', True)
     # get_xsd_indicator: complexType children
@@ -282,17 +296,30 @@ def _check_occurrence_helper(res, occ):
         _expect_occ(flat, which, occ.fq, res, 'R-EXH.particles|indicator-occurrences')
 
 
-def _check_occ_default(res, init, value, param, allow_unbounded):
+def _check_occ_default(res, init, stmts, param, allow_unbounded):
+    """The statements of __init__ that store self.<param> (an assignment of a conditional expression, an if statement, ...) are run by the
+    abstract evaluator for every input class of the constructor argument; what they store is tabulated."""
     where = init.fq
-    if value is None:
+    if not stmts:
         res.finding('R-EXH.particles', where, f"{param} is stored on the container", key=f"R-EXH.particles|default|{param}")
         return
-    classes = {param: [abseval.NONE, _UNB, _NUM] if allow_unbounded else [abseval.NONE, _NUM]}
-    try:
-        table = abseval.tabulate_expr(value, classes)
-    except abseval.NotUnderstood as e:
-        raise AnalysisError(f"{where}: {param} default uses an idiom the abstract evaluator does not understand ({e})")
-    _expect_occ({k[0]: v for k, v in table.items()}, 'max' if allow_unbounded else 'min', where, res, f"R-EXH.particles|default|{param}")
+    classes = [abseval.NONE, _UNB, _NUM] if allow_unbounded else [abseval.NONE, _NUM]
+    table = {}
+    for c in classes:
+        env = {param: ('sym', param, c), '__effects__': [], '__order__': {}, '__assume__': {}}
+        try:
+            abseval.exec_block(stmts, env)
+        except abseval.NotUnderstood as e:
+            raise AnalysisError(f"{where}: {param} default uses an idiom the abstract evaluator does not understand ({e})")
+        except abseval._Return as r:
+            table[c.label] = r.v
+            continue
+        stored = [v for k, v in env['__effects__'] if k == f"self.{param}"]
+        if not stored:
+            res.finding('R-EXH.particles', where, f"{param} is stored on the container for an argument that is {c.label}", key=f"R-EXH.particles|default|{param}")
+            return
+        table[c.label] = stored[-1]
+    _expect_occ(table, 'max' if allow_unbounded else 'min', where, res, f"R-EXH.particles|default|{param}")
 
 
 def check_attribute_dispatch(ctx):
